@@ -39,8 +39,12 @@ type h2opts struct {
 	UseTrailers bool     `json:"trailers_frame"`
 	ContFrag    int      `json:"continuation_fragment"` // >0: header blocks are cut into fragments of this size
 	Head        bool     `json:"head"`
+	TableSize   int      `json:"header_table_size,omitempty"` // SETTINGS_HEADER_TABLE_SIZE announced by the client (customTable)
+	customTable bool
 	After       string   `json:"after_end,omitempty"` // what the peer does after the response is complete: rst-no-error | rst-cancel | goaway-close | close
 	Upload      int      `json:"upload_bytes,omitempty"` // request body (never acknowledged: stays blocked on flow control)
+	winAtArrival int64        // the peer's view of the connection-level window when this request arrived
+	waitMs      int           // how long the peer waits for flow-control window before giving up (default 20 s)
 	barrier     chan struct{} // closed when the client has acknowledged the PING sent after the last scripted frame
 	heads       [][]field // wire field lists of every HEADERS frame before the data (interim..., final), with :status first
 	trailerWire []field
@@ -160,6 +164,7 @@ func (s *h2srv) serve(c net.Conn) {
 	streamWin := map[uint32]int64{}
 	winCh := make(chan struct{}, 1)
 	var fmu sync.Mutex
+	cx.win = func() int64 { fmu.Lock(); defer fmu.Unlock(); return connWin }
 	var hdrBlock []byte
 	for {
 		f, err := fr.ReadFrame()
@@ -169,6 +174,14 @@ func (s *h2srv) serve(c net.Conn) {
 		switch f := f.(type) {
 		case *http2.SettingsFrame:
 			if !f.IsAck() {
+				if v, ok := f.Value(http2.SettingHeaderTableSize); ok {
+					// honour the client's offer: use a dynamic table of that size (the encoder emits a
+					// dynamic table size update in the next header block)
+					wmu.Lock()
+					enc.SetMaxDynamicTableSizeLimit(v)
+					enc.SetMaxDynamicTableSize(v)
+					wmu.Unlock()
+				}
 				if v, ok := f.Value(http2.SettingInitialWindowSize); ok {
 					fmu.Lock()
 					d := int64(v) - initWin
@@ -229,6 +242,9 @@ func (s *h2srv) serve(c net.Conn) {
 			}
 			x := v.(*exch)
 			sid := f.StreamID
+			if x.H2 != nil {
+				x.H2.winAtArrival = cx.win()
+			}
 			if x.grp != nil { // several exchanges in flight: the group plays the frames once all have arrived
 				x.grp.arrive(x, cx, sid)
 				continue
@@ -292,9 +308,13 @@ func (s *h2srv) serve(c net.Conn) {
 						if ok {
 							break
 						}
+						wait := 20 * time.Second
+						if o.waitMs > 0 {
+							wait = time.Duration(o.waitMs) * time.Millisecond
+						}
 						select {
 						case <-winCh:
-						case <-time.After(20 * time.Second):
+						case <-time.After(wait):
 							return
 						}
 					}
